@@ -337,7 +337,9 @@ impl CursorTracker for CursorTrackerImpl<'_> {
                         .sum::<usize>()
                         + reverse_col as usize;
 
-                    (new_token_offset + tok.get_content().len() - offset_from_end) as u32
+                    // the token may have been rewritten with shorter lines; stay inside it
+                    let content_len = tok.get_content().len();
+                    (new_token_offset + content_len - offset_from_end.min(content_len)) as u32
                 }
                 TokPos::Whitespace {
                     col,
